@@ -24,7 +24,7 @@ keccak = z3.Function("keccak", SeqI, SeqI)
 unkeccak = z3.Function("unkeccak", SeqI, SeqI)
 
 # big-endian integer of a byte string (eth_utils.to_int)
-to_int = z3.Function("to_int", SeqI, IntS)
+to_int = z3.Function("be_int", SeqI, IntS)
 
 # rlp of a raw hexary node is handled in the hexary model (contracts/hexmodel.py)
 
